@@ -924,4 +924,211 @@ theorem law_no (cfg : Cfg) (t1 t2 : Nat) :
   · rw [e]; simp [OS.count, a4]
   · rw [e, a7]
 
+/-! ### operations that do not touch capturing -/
+
+/-- `st'` differs from `st` only in registries / task lists (not in descriptors, streams, buffers, sections, capture manager) -/
+structure Inert (st st' : St) : Prop where
+  cm : st'.cm = st.cm
+  os : st'.w.os = st.w.os
+  fault : st'.w.fault = st.w.fault
+  secs : st'.secs = st.secs
+  sin : st'.w.py.stdin = st.w.py.stdin
+  sout : st'.w.py.stdout = st.w.py.stdout
+  serr : st'.w.py.stderr = st.w.py.stderr
+  bufs : st'.w.py.bufs = st.w.py.bufs
+
+theorem FdReady.inert {st st' : St} {p : FdP} {ins : CapState} (h : FdReady st p ins) (i : Inert st st') : FdReady st' p ins := by
+  obtain ⟨a1, a2, a3, a4, a5, a6, a7, a8, a9, a10, a11, a12, a13, a14, a15, a16, a17, a18, a19⟩ := h
+  obtain ⟨i1, i2, i3, i4, i5, i6, i7, i8⟩ := i
+  exact ⟨by rw [i1, a1], a2, a3, by rw [i2, a4], by rw [i2, a5], by rw [i2, a6], by rw [i2, a7], by rw [i2, a8], by rw [i2, a9],
+    by rw [i2, a10], by rw [i2, a11], by rw [i2, a12], by rw [i5, a13], by rw [i6, a14], by rw [i7, a15], by rw [i2, a16],
+    by rw [i2, a17], a18, by rw [i3, a19]⟩
+
+theorem SysReady.inert {st st' : St} {p : SysP} {ins : CapState} (h : SysReady st p ins) (i : Inert st st') : SysReady st' p ins := by
+  obtain ⟨a1, a2, a3, a4, a5, a6, a7, a8, a9, a10, a11⟩ := h
+  obtain ⟨i1, i2, i3, i4, i5, i6, i7, i8⟩ := i
+  exact ⟨by rw [i1, a1], a2, by rw [i2, a3], by rw [i2, a4], fun ht => by rw [i5, a5 ht], by rw [i6, a6], by rw [i7, a7],
+    by simpa [W.buf, i8] using a8, by simpa [W.buf, i8] using a9, a10, by rw [i3, a11]⟩
+
+theorem NoReady.inert {st st' : St} {t1 t2 : Nat} (h : NoReady st t1 t2) (i : Inert st st') : NoReady st' t1 t2 := by
+  obtain ⟨a1, a2, a3, a4, a5, a6⟩ := h
+  obtain ⟨i1, i2, i3, i4, i5, i6, i7, i8⟩ := i
+  exact ⟨by rw [i1, a1], by rw [i2, a2], by rw [i2, a3], by rw [i6, a4], by rw [i7, a5], by rw [i3, a6]⟩
+
+theorem inert_collect (cfg : Cfg) (st : St) (mods : List ModSpec) : Inert st (step cfg st (.collect mods)) := by
+  have key : ∀ (ms : List ModSpec) (p : Py), (collectAll p ms).1.stdin = p.stdin ∧ (collectAll p ms).1.stdout = p.stdout ∧
+      (collectAll p ms).1.stderr = p.stderr ∧ (collectAll p ms).1.bufs = p.bufs := by
+    intro ms
+    induction ms with
+    | nil => intro p; simp [collectAll]
+    | cons m ms ih =>
+      intro p
+      have h1 : (collectModule p m).1.stdin = p.stdin ∧ (collectModule p m).1.stdout = p.stdout ∧
+          (collectModule p m).1.stderr = p.stderr ∧ (collectModule p m).1.bufs = p.bufs := by
+        unfold collectModule; split
+        · simp
+        · split <;> simp
+      obtain ⟨b1, b2, b3, b4⟩ := ih (collectModule p m).1
+      simp only [collectAll]
+      exact ⟨b1.trans h1.1, b2.trans h1.2.1, b3.trans h1.2.2.1, b4.trans h1.2.2.2⟩
+  obtain ⟨k1, k2, k3, k4⟩ := key mods st.w.py
+  exact ⟨rfl, rfl, rfl, rfl, k1, k2, k3, k4⟩
+
+theorem step_postParse_neutral (cfg : Cfg) (st : St) (s : String)
+    (h : s ∈ ["warnings", "profile", "mark", "live", "execute", "config", "build"]) : step cfg st (.postParse s) = st := by
+  simp only [List.mem_cons, List.not_mem_nil, or_false] at h
+  rcases h with rfl | rfl | rfl | rfl | rfl | rfl | rfl <;> rfl
+
+theorem step_postParse_logging (cfg : Cfg) (st : St) :
+    step cfg st (.postParse "logging") = { st with w := { st.w with py := { st.w.py with reportVars := cfg.reportVars } } } := rfl
+
+theorem step_postParse_debugging (cfg : Cfg) (st : St) :
+    step cfg st (.postParse "debugging") =
+      { st with w := { st.w with py := { st.w.py with pdbSaved := st.w.py.setTrace :: st.w.py.pdbSaved, setTrace := 1 } } } := rfl
+
+theorem step_postParse_database (cfg : Cfg) (st : St) :
+    step cfg st (.postParse "database") =
+      { st with w := { st.w with os := st.w.os.openNew.1,
+                                 py := { st.w.py with garbage := st.w.py.garbage ++ st.w.py.dbFd.toList, dbFd := some st.w.os.free } } } := rfl
+
+theorem step_unconfigure_task (cfg : Cfg) (st : St) :
+    step cfg st (.unconfigure "task") = { st with w := { st.w with py := { st.w.py with collected := [] } } } := rfl
+theorem step_unconfigure_logging (cfg : Cfg) (st : St) :
+    step cfg st (.unconfigure "logging") = { st with w := { st.w with py := { st.w.py with reportVars := 0 } } } := rfl
+theorem step_unconfigure_provisional (cfg : Cfg) (st : St) :
+    step cfg st (.unconfigure "provisional") = { st with w := { st.w with py := { st.w.py with provisional := [] } } } := rfl
+theorem step_unconfigure_build (cfg : Cfg) (st : St) : step cfg st (.unconfigure "build") = st := rfl
+theorem step_unconfigure_debugging (cfg : Cfg) (st : St) (x : Nat) (rest : List Nat) (h : st.w.py.pdbSaved = x :: rest) :
+    step cfg st (.unconfigure "debugging") = { st with w := { st.w with py := { st.w.py with setTrace := x, pdbSaved := rest } } } := by
+  show (match st.w.py.pdbSaved with | [] => _ | x :: rest => _) = _
+  rw [h]
+
+/-! ### `pytask_collect_log` wrapper: `suspend(in_=True)` -/
+
+theorem step_collectLog (cfg : Cfg) (st : St) :
+    step cfg st .collectLog = runCalls 0 "" id st [.suspend true, .yield] := by
+  simp [step, collectLogCalls_eq]
+
+theorem collectLog_no (cfg : Cfg) (st : St) (t1 t2 : Nat) (h : NoReady st t1 t2) :
+    NoReady (step cfg st .collectLog) t1 t2 ∧ Inert st (step cfg st .collectLog) ∧ (step cfg st .collectLog).w.py = st.w.py
+      ∧ (step cfg st .collectLog).tasks = st.tasks ∧ (step cfg st .collectLog).collectFailed = st.collectFailed := by
+  rw [step_collectLog]
+  have e : runCalls 0 "" id st [.suspend true, .yield] = st := by
+    simp [runCalls, runCall, withCM, h.cm, CM.suspend, MC.suspendCapturing, noMC, optCap]
+    cases st; simp_all
+    exact h.cm.symm
+  rw [e]; exact ⟨h, ⟨rfl, rfl, rfl, rfl, rfl, rfl, rfl, rfl⟩, rfl, rfl, rfl⟩
+
+theorem collectLog_sys (cfg : Cfg) (st : St) (p : SysP) (h : SysReady st p .started) :
+    SysReady (step cfg st .collectLog) p .suspended ∧ (step cfg st .collectLog).w.os = st.w.os ∧
+    (step cfg st .collectLog).secs = st.secs ∧ (step cfg st .collectLog).tasks = st.tasks ∧
+    (step cfg st .collectLog).collectFailed = st.collectFailed ∧
+    miscOf (step cfg st .collectLog).w.py = miscOf st.w.py := by
+  rw [step_collectLog]
+  obtain ⟨hcm, hins, fd1, fd2, sin, sout, serr, e1, e2, ne, nf⟩ := h
+  cases hp : p.tee
+  · have e : runCalls 0 "" id st [.suspend true, .yield] =
+        { st with w := { st.w with py := { st.w.py with stdin := p.sin } }, cm := some ⟨p.method, some (sysMC p .suspended)⟩ } := by
+      simp [runCalls, runCall, withCM, hcm, CM.suspend, MC.suspendCapturing, sysMC, optCap, hp, Cap.suspend, SysCap.suspend,
+        W.setStd, Py.setStd]
+      exact ⟨sout.symm, serr.symm⟩
+    rw [e]
+    refine ⟨⟨rfl, Or.inr rfl, fd1, fd2, fun _ => by simp, sout, serr, e1, e2, ne, nf⟩, rfl, rfl, rfl, rfl, ?_⟩
+    simp [miscOf]
+  · have e : runCalls 0 "" id st [.suspend true, .yield] =
+        { st with cm := some ⟨p.method, some (sysMC p .suspended)⟩ } := by
+      simp [runCalls, runCall, withCM, hcm, CM.suspend, MC.suspendCapturing, sysMC, optCap, hp, Cap.suspend, SysCap.suspend,
+        W.setStd, Py.setStd]
+      cases st; rename_i w _ _ _ _; cases w; rename_i _ py _ ; cases py; simp_all
+    rw [e]
+    exact ⟨⟨rfl, Or.inr rfl, fd1, fd2, fun ht => by simp [hp] at ht, sout, serr, e1, e2, ne, nf⟩, rfl, rfl, rfl, rfl, rfl⟩
+
+theorem collectLog_fd (cfg : Cfg) (st : St) (p : FdP) (h : FdReady st p .started) :
+    FdReady (step cfg st .collectLog) p .suspended ∧ (∀ f, (step cfg st .collectLog).w.os.file f = st.w.os.file f) ∧
+    (step cfg st .collectLog).w.os.count = st.w.os.count ∧
+    (step cfg st .collectLog).secs = st.secs ∧ (step cfg st .collectLog).tasks = st.tasks ∧
+    (step cfg st .collectLog).collectFailed = st.collectFailed ∧
+    miscOf (step cfg st .collectLog).w.py = miscOf st.w.py := by
+  rw [step_collectLog]
+  obtain ⟨hcm, hins, ⟨g1, g2, g3, g4, g5, g6⟩, fd1, fd2, fso, fse, fsi, fpo, fpe, fpi, fd0, sin, sout, serr, e1, e2, ne, nf⟩ := h
+  have e : runCalls 0 "" id st [.suspend true, .yield] =
+      { st with w := { st.w with os := st.w.os.setFd 0 (some p.t0), py := { st.w.py with stdin := p.sin } },
+                cm := some ⟨.fd, some (fdMC p .suspended)⟩ } := by
+    simp [runCalls, runCall, withCM, hcm, CM.suspend, MC.suspendCapturing, fdMC, optCap, Cap.suspend, FdCap.suspend_started,
+      FdCap.suspend, fdCap, W.setStd, Py.setStd, OS.dup2_of_some _ _ _ _ fsi, optSys, SysCap.suspend]
+  rw [e]
+  simp at fd0
+  refine ⟨⟨rfl, Or.inr rfl, ⟨g1, g2, g3, g4, g5, g6⟩, ?_, ?_, ?_, ?_, ?_, ?_, ?_, ?_, ?_, ?_, sout, serr, e1, e2, ne, nf⟩, ?_, ?_, rfl, rfl, rfl, ?_⟩
+  all_goals first | (simp only []; grind) | skip
+  · simp only []; exact OS.count_setFd_some _ 0 p.g0 _ fd0
+  · simp [miscOf]
+
+/-! ### `capture.pytask_post_parse` -/
+
+/-- the state in which `capture.pytask_post_parse` calls the new manager: the previous manager is unreachable -/
+def preCapture (cfg : Cfg) (st : St) : St :=
+  { st with w := { st.w with py := { st.w.py with garbage := st.w.py.garbage ++ (st.cm.map CM.owned).getD [] } }
+            cm := some { method := cfg.method } }
+
+theorem step_postParse_capture (cfg : Cfg) (st : St) :
+    step cfg st (.postParse "capture") =
+      runCalls 0 "" id (preCapture cfg st) [.stop, .start, .suspend false] := by
+  show runCalls 0 "" id _ postParseCalls = _
+  rw [postParseCalls_eq]; rfl
+
+theorem postParse_capture_no (cfg : Cfg) (st : St) (hm : cfg.method = .no) (hw : StdW st.w)
+    (t1 t2 : Nat) (h1 : st.w.os.fd 1 = some t1) (h2 : st.w.os.fd 2 = some t2) :
+    NoReady (step cfg st (.postParse "capture")) t1 t2 ∧
+    (step cfg st (.postParse "capture")).w.os = st.w.os ∧
+    (step cfg st (.postParse "capture")).secs = st.secs ∧
+    (step cfg st (.postParse "capture")).w.py = { st.w.py with garbage := st.w.py.garbage ++ (st.cm.map CM.owned).getD [] } := by
+  rw [step_postParse_capture]
+  have e : runCalls 0 "" id (preCapture cfg st) [.stop, .start, .suspend false]
+      = { preCapture cfg st with cm := some ⟨.no, some (noMC .suspended)⟩ } := by
+    simp [preCapture, runCalls, runCall, withCM, hm, CM.stopCapturing, CM.startCapturing, getMulticapture, ctorsOf_no, mkCap, MC.startCapturing,
+      optCap, CM.suspend, MC.suspendCapturing, noMC]
+  rw [e]
+  exact ⟨⟨rfl, h1, h2, hw.sout, hw.serr, hw.nofault⟩, rfl, rfl, rfl⟩
+
+theorem postParse_capture_sys (cfg : Cfg) (st : St) (tee : Bool) (hm : cfg.method = if tee then .teeSys else .sys) (hw : StdW st.w)
+    (t1 t2 : Nat) (h1 : st.w.os.fd 1 = some t1) (h2 : st.w.os.fd 2 = some t2) :
+    ∃ p : SysP, SysReady (step cfg st (.postParse "capture")) p .started ∧ p.tee = tee ∧ p.t1 = t1 ∧ p.t2 = t2 ∧
+    (step cfg st (.postParse "capture")).w.os = st.w.os ∧
+    (step cfg st (.postParse "capture")).secs = st.secs ∧
+    miscOf (step cfg st (.postParse "capture")).w.py =
+      miscOf { st.w.py with garbage := st.w.py.garbage ++ (st.cm.map CM.owned).getD [] } ∧
+    (tee = true → (step cfg st (.postParse "capture")).w.py.stdin = st.w.py.stdin) := by
+  rw [step_postParse_capture]
+  obtain ⟨hos, hso, hse, hnf⟩ := hw
+  cases tee
+  · refine ⟨⟨false, st.w.py.nextOid, st.w.py.nextOid + 1, st.w.py.nextOid + 2, st.w.py.bufs.length, st.w.py.bufs.length + 1, t1, t2, st.w.py.stdin⟩, ?_⟩
+    simp only [Bool.false_eq_true, if_false] at hm
+    have e : runCalls 0 "" id (preCapture cfg st) [.stop, .start, .suspend false]
+        = { st with w := { st.w with py := { st.w.py with garbage := st.w.py.garbage ++ (st.cm.map CM.owned).getD []
+                                                          nextOid := st.w.py.nextOid + 3
+                                                          bufs := st.w.py.bufs ++ [[]] ++ [[]]
+                                                          stdin := .dontRead st.w.py.nextOid } }
+                    cm := some ⟨.sys, some (sysMC ⟨false, st.w.py.nextOid, st.w.py.nextOid + 1, st.w.py.nextOid + 2, st.w.py.bufs.length, st.w.py.bufs.length + 1, t1, t2, st.w.py.stdin⟩ .started)⟩ } := by
+      simp [preCapture, runCalls, runCall, withCM, hm, CM.stopCapturing, CM.startCapturing, getMulticapture, ctorsOf_sys, mkCap, MC.startCapturing,
+        optCap, CM.suspend, MC.suspendCapturing, sysMC, SysCap.init, newOid, newBuf, Cap.start, SysCap.start, Cap.suspend,
+        SysCap.suspend, W.setStd, Py.setStd, Py.getStd, hso, hse, SysP.tmpO, SysP.tmpE]
+    rw [e]
+    refine ⟨⟨rfl, Or.inl rfl, h1, h2, fun _ => by simp, hso, hse, ?_, ?_, by simp, hnf⟩, rfl, rfl, rfl, rfl, rfl, by simp [miscOf, hso, hse], by simp⟩
+    · simp [W.buf, List.getD_eq_getElem?_getD]
+    · simp [W.buf, List.getD_eq_getElem?_getD]
+  · refine ⟨⟨true, 0, st.w.py.nextOid, st.w.py.nextOid + 1, st.w.py.bufs.length, st.w.py.bufs.length + 1, t1, t2, st.w.py.stdin⟩, ?_⟩
+    simp only [if_true] at hm
+    have e : runCalls 0 "" id (preCapture cfg st) [.stop, .start, .suspend false]
+        = { st with w := { st.w with py := { st.w.py with garbage := st.w.py.garbage ++ (st.cm.map CM.owned).getD []
+                                                          nextOid := st.w.py.nextOid + 2
+                                                          bufs := st.w.py.bufs ++ [[]] ++ [[]] } }
+                    cm := some ⟨.teeSys, some (sysMC ⟨true, 0, st.w.py.nextOid, st.w.py.nextOid + 1, st.w.py.bufs.length, st.w.py.bufs.length + 1, t1, t2, st.w.py.stdin⟩ .started)⟩ } := by
+      simp [preCapture, runCalls, runCall, withCM, hm, CM.stopCapturing, CM.startCapturing, getMulticapture, ctorsOf_tee, mkCap, MC.startCapturing,
+        optCap, CM.suspend, MC.suspendCapturing, sysMC, SysCap.init, newOid, newBuf, Cap.start, SysCap.start, Cap.suspend,
+        SysCap.suspend, W.setStd, Py.setStd, Py.getStd, hso, hse, SysP.tmpO, SysP.tmpE]
+    rw [e]
+    refine ⟨⟨rfl, Or.inl rfl, h1, h2, fun h => by simp at h, hso, hse, ?_, ?_, by simp, hnf⟩, rfl, rfl, rfl, rfl, rfl, by simp [miscOf, hso, hse], by simp⟩
+    · simp [W.buf, List.getD_eq_getElem?_getD]
+    · simp [W.buf, List.getD_eq_getElem?_getD]
+
 end Pytask.Capture
